@@ -22,39 +22,40 @@ def Dom.wfVars : Dom K → Prop
   | .translate v d _ | .rotate v d _ _ => d.vars = [v] ∧ d.wfVars
   | .bdry _ | .bdryL _ | .bdryR _ => True
 
-/-- `bounding_box(params)` sees the parameter row only, the membership test sees the point joined with
-    its row (`points.join(params)`): the parameter functions of `D` read the same values from both.
+/-- `bounding_box(params)` sees the parameter row `ρ` only, the membership test sees the point joined with
+    an environment `σ` (`points.join(params)`; inside motion nodes: the point's other coordinates joined with
+    the row): the parameter functions of `D` read the same values from both.
     (Parameter variables and the coordinate variables of the point are different names; for a dependent
     product the partner's coordinates in the parameter row are those of the point.) -/
-def Agree : Dom K → Env K → Env K → Prop
-  | .interval _ lb ub, pts, ρ => lb.f (pts ++ ρ) = lb.f ρ ∧ ub.f (pts ++ ρ) = ub.f ρ
-  | .par _ o c1 c2, pts, ρ | .tri _ o c1 c2, pts, ρ =>
-    o.f (pts ++ ρ) = o.f ρ ∧ c1.f (pts ++ ρ) = c1.f ρ ∧ c2.f (pts ++ ρ) = c2.f ρ
-  | .circle _ c r, pts, ρ | .sphere _ c r, pts, ρ => c.f (pts ++ ρ) = c.f ρ ∧ r.f (pts ++ ρ) = r.f ρ
-  | .union a b, pts, ρ | .cut a b, pts, ρ | .inter a b, pts, ρ | .prod a b, pts, ρ => Agree a pts ρ ∧ Agree b pts ρ
-  | .translate v d t, pts, ρ => t.f (pts ++ ρ) = t.f ρ ∧ ∀ q, Agree d [(v, q)] ρ
-  | .rotate v d m c, pts, ρ => m.f (pts ++ ρ) = m.f ρ ∧ c.f (pts ++ ρ) = c.f ρ ∧ ∀ q, Agree d [(v, q)] ρ
-  | .bdry _, _, _ | .bdryL _, _, _ | .bdryR _, _, _ => True
+def AgreeG : Dom K → Env K → Env K → Env K → Prop
+  | .interval _ lb ub, pts, σ, ρ => lb.f (pts ++ σ) = lb.f ρ ∧ ub.f (pts ++ σ) = ub.f ρ
+  | .par _ o c1 c2, pts, σ, ρ | .tri _ o c1 c2, pts, σ, ρ =>
+    o.f (pts ++ σ) = o.f ρ ∧ c1.f (pts ++ σ) = c1.f ρ ∧ c2.f (pts ++ σ) = c2.f ρ
+  | .circle _ c r, pts, σ, ρ | .sphere _ c r, pts, σ, ρ => c.f (pts ++ σ) = c.f ρ ∧ r.f (pts ++ σ) = r.f ρ
+  | .union a b, pts, σ, ρ | .cut a b, pts, σ, ρ | .inter a b, pts, σ, ρ | .prod a b, pts, σ, ρ =>
+    AgreeG a pts σ ρ ∧ AgreeG b pts σ ρ
+  | .translate v d t, pts, σ, ρ =>
+    t.f (pts ++ σ) = t.f ρ ∧ ∀ q, AgreeG d [(v, q)] (pts.filter (fun b => b.1 != v) ++ σ) ρ
+  | .rotate v d m c, pts, σ, ρ =>
+    m.f (pts ++ σ) = m.f ρ ∧ c.f (pts ++ σ) = c.f ρ ∧ ∀ q, AgreeG d [(v, q)] (pts.filter (fun b => b.1 != v) ++ σ) ρ
+  | .bdry _, _, _, _ | .bdryL _, _, _, _ | .bdryR _, _, _, _ => True
+
+/-- the top-level case: the membership test sees the point joined with its own parameter row -/
+def Agree (D : Dom K) (pts ρ : Env K) : Prop := AgreeG D pts ρ ρ
 
 theorem eval1_of {p : PFun K} {ρ : Env K} {a : K} (h : p.f ρ = [a]) : eval1 p ρ = some a := by simp [eval1, h]
 theorem eval2_of {p : PFun K} {ρ : Env K} {a b : K} (h : p.f ρ = [a, b]) : eval2 p ρ = some (a, b) := by simp [eval2, h]
 theorem eval3_of {p : PFun K} {ρ : Env K} {a b c : K} (h : p.f ρ = [a, b, c]) : eval3 p ρ = some (a, b, c) := by simp [eval3, h]
 
-/-- **Main theorem (enclosure).**  For every domain expression — any nesting of union / cut / intersection /
-    product / translation / rotation over interval, parallelogram, triangle, disc, ball —, every list of
-    supplied parameter rows `ρs`, every row `ρ` among them and every point `pts` of the set the expression
-    denotes at that row: each coordinate of the point (in space order) lies in the interval `[min, max]`
-    that `bounding_box` returns for its axis (for motion nodes: in the box returned for that row).
-    By structural induction: parallelogram / triangle by convexity (the point is a convex combination of the
-    corners), disc / ball from `(pᵢ − cᵢ)² ≤ r²`, union = hull, intersection = meet, cut = first operand,
-    product = concatenation, translation = shifted inner box, rotation = extreme coordinates of the images of
-    all four corners of the inner box (an affine map on a box is extremal at a corner). -/
-theorem bbox_encloses (D : Dom K) : ∀ (ρs : List (Env K)) (ρ pts : Env K) (box : List (K × K)) (p : List K),
-    D.wfVars → ρ ∈ ρs → Agree D pts ρ → mem D pts ρ → bbox D ρs ρ = some box → flatPt D.vars pts = some p →
+/-- the induction behind `bbox_encloses`, with the environment `σ` the membership test evaluates parameters in
+    kept apart from the parameter row `ρ` the box is computed from (inside motion nodes `σ` also carries the
+    point's other coordinates) -/
+theorem bbox_encloses_gen (D : Dom K) : ∀ (ρs : List (Env K)) (ρ σ pts : Env K) (box : List (K × K)) (p : List K),
+    D.wfVars → ρ ∈ ρs → AgreeG D pts σ ρ → mem D pts σ → bbox D ρs ρ = some box → flatPt D.vars pts = some p →
     Inside box p := by
   induction D with
   | interval v lb ub =>
-    intro ρs ρ pts box p _ hρ hag hm hb hp
+    intro ρs ρ σ pts box p _ hρ hag hm hb hp
     obtain ⟨x, l, u, hx, hl, hu, h1, h2⟩ := hm
     rw [hag.1] at hl; rw [hag.2] at hu
     simp only [Dom.vars, flatPt_single hx, Option.some.injEq] at hp
@@ -77,7 +78,7 @@ theorem bbox_encloses (D : Dom K) : ∀ (ρs : List (Env K)) (ρ pts : Env K) (b
       · simp at hb
     · simp at hb
   | par v o c1 c2 =>
-    intro ρs ρ pts box p _ hρ hag hm hb hp
+    intro ρs ρ σ pts box p _ hρ hag hm hb hp
     obtain ⟨x, y, ox, oy, ax, ay, bx, cy, s, t, hx, ho, h1, h2, hs0, hs1, ht0, ht1, ex, ey⟩ := hm
     rw [hag.1] at ho; rw [hag.2.1] at h1; rw [hag.2.2] at h2
     simp only [Dom.vars, flatPt_single hx, Option.some.injEq] at hp
@@ -100,7 +101,7 @@ theorem bbox_encloses (D : Dom K) : ∀ (ρs : List (Env K)) (ρ pts : Env K) (b
       exact List.Forall₂.cons X (List.Forall₂.cons Y List.Forall₂.nil)
     · simp at hb
   | tri v o c1 c2 =>
-    intro ρs ρ pts box p _ hρ hag hm hb hp
+    intro ρs ρ σ pts box p _ hρ hag hm hb hp
     obtain ⟨x, y, ox, oy, ax, ay, bx, cy, s, t, hx, ho, h1, h2, hs0, ht0, hst, ex, ey⟩ := hm
     rw [hag.1] at ho; rw [hag.2.1] at h1; rw [hag.2.2] at h2
     simp only [Dom.vars, flatPt_single hx, Option.some.injEq] at hp
@@ -122,7 +123,7 @@ theorem bbox_encloses (D : Dom K) : ∀ (ρs : List (Env K)) (ρ pts : Env K) (b
       exact List.Forall₂.cons X (List.Forall₂.cons Y List.Forall₂.nil)
     · simp at hb
   | circle v c r =>
-    intro ρs ρ pts box p _ hρ hag hm hb hp
+    intro ρs ρ σ pts box p _ hρ hag hm hb hp
     obtain ⟨x, y, cx, cy, rr, hx, hc, hr, h0, hd⟩ := hm
     rw [hag.1] at hc; rw [hag.2] at hr
     simp only [Dom.vars, flatPt_single hx, Option.some.injEq] at hp
@@ -149,7 +150,7 @@ theorem bbox_encloses (D : Dom K) : ∀ (ρs : List (Env K)) (ρ pts : Env K) (b
       · simp at hb
     · simp at hb
   | sphere v c r =>
-    intro ρs ρ pts box p _ hρ hag hm hb hp
+    intro ρs ρ σ pts box p _ hρ hag hm hb hp
     obtain ⟨x, y, z, cx, cy, cz, rr, hx, hc, hr, h0, hd⟩ := hm
     rw [hag.1] at hc; rw [hag.2] at hr
     simp only [Dom.vars, flatPt_single hx, Option.some.injEq] at hp
@@ -179,7 +180,7 @@ theorem bbox_encloses (D : Dom K) : ∀ (ρs : List (Env K)) (ρ pts : Env K) (b
       · simp at hb
     · simp at hb
   | union a b iha ihb =>
-    intro ρs ρ pts box p hw hρ hag hm hb hp
+    intro ρs ρ σ pts box p hw hρ hag hm hb hp
     simp only [bbox] at hb
     split at hb
     · rename_i ba bb hba hbb
@@ -189,16 +190,16 @@ theorem bbox_encloses (D : Dom K) : ∀ (ρs : List (Env K)) (ρ pts : Env K) (b
         subst hb
         simp only [Dom.vars] at hp
         rcases hm with hm | hm
-        · exact (iha ρs ρ pts ba p hw.2.1 hρ hag.1 hm hba hp).hull_left hl
-        · exact (ihb ρs ρ pts bb p hw.2.2 hρ hag.2 hm hbb (hw.1 ▸ hp)).hull_right hl
+        · exact (iha ρs ρ σ pts ba p hw.2.1 hρ hag.1 hm hba hp).hull_left hl
+        · exact (ihb ρs ρ σ pts bb p hw.2.2 hρ hag.2 hm hbb (hw.1 ▸ hp)).hull_right hl
       · simp at hb
     · simp at hb
   | cut a b iha _ =>
-    intro ρs ρ pts box p hw hρ hag hm hb hp
+    intro ρs ρ σ pts box p hw hρ hag hm hb hp
     simp only [bbox] at hb
-    exact iha ρs ρ pts box p hw.2.1 hρ hag.1 hm.1 hb hp
+    exact iha ρs ρ σ pts box p hw.2.1 hρ hag.1 hm.1 hb hp
   | inter a b iha ihb =>
-    intro ρs ρ pts box p hw hρ hag hm hb hp
+    intro ρs ρ σ pts box p hw hρ hag hm hb hp
     simp only [bbox] at hb
     split at hb
     · rename_i ba bb hba hbb
@@ -206,11 +207,11 @@ theorem bbox_encloses (D : Dom K) : ∀ (ρs : List (Env K)) (ρ pts : Env K) (b
       · simp only [Option.some.injEq] at hb
         subst hb
         simp only [Dom.vars] at hp
-        exact (iha ρs ρ pts ba p hw.2.1 hρ hag.1 hm.1 hba hp).meet (ihb ρs ρ pts bb p hw.2.2 hρ hag.2 hm.2 hbb (hw.1 ▸ hp))
+        exact (iha ρs ρ σ pts ba p hw.2.1 hρ hag.1 hm.1 hba hp).meet (ihb ρs ρ σ pts bb p hw.2.2 hρ hag.2 hm.2 hbb (hw.1 ▸ hp))
       · simp at hb
     · simp at hb
   | prod a b iha ihb =>
-    intro ρs ρ pts box p hw hρ hag hm hb hp
+    intro ρs ρ σ pts box p hw hρ hag hm hb hp
     simp only [bbox] at hb
     split at hb
     · rename_i ba bb hba hbb
@@ -218,10 +219,10 @@ theorem bbox_encloses (D : Dom K) : ∀ (ρs : List (Env K)) (ρ pts : Env K) (b
       subst hb
       simp only [Dom.vars] at hp
       obtain ⟨pa, pb, h1, h2, rfl⟩ := flatPt_append hp
-      exact (iha ρs ρ pts ba pa hw.1 hρ hag.1 hm.1 hba h1).append (ihb ρs ρ pts bb pb hw.2 hρ hag.2 hm.2 hbb h2)
+      exact (iha ρs ρ σ pts ba pa hw.1 hρ hag.1 hm.1 hba h1).append (ihb ρs ρ σ pts bb pb hw.2 hρ hag.2 hm.2 hbb h2)
     · simp at hb
   | translate v d t ih =>
-    intro ρs ρ pts box p hw hρ hag hm hb hp
+    intro ρs ρ σ pts box p hw hρ hag hm hb hp
     simp only [bbox] at hb
     split at hb
     · rename_i bd hbd
@@ -236,28 +237,28 @@ theorem bbox_encloses (D : Dom K) : ∀ (ρs : List (Env K)) (ρ pts : Env K) (b
         · rw [hag.1] at ht
           rw [flatPt_single hx, Option.some.injEq] at hp
           subst hp
-          have I := ih ρs ρ [(v, [q])] bd [q] hw.2 hρ (hag.2 _) hm hbd (by rw [hw.1]; exact flatPt_single (get_single v _))
+          have I := ih ρs ρ _ [(v, [q])] bd [q] hw.2 hρ (hag.2 _) hm hbd (by rw [hw.1]; exact flatPt_single (get_single v _))
           rw [ht] at hl ⊢
           have := I.shift hl
           simpa [e] using this
         · rw [hag.1] at ht
           rw [flatPt_single hx, Option.some.injEq] at hp
           subst hp
-          have I := ih ρs ρ [(v, [q1, q2])] bd [q1, q2] hw.2 hρ (hag.2 _) hm hbd (by rw [hw.1]; exact flatPt_single (get_single v _))
+          have I := ih ρs ρ _ [(v, [q1, q2])] bd [q1, q2] hw.2 hρ (hag.2 _) hm hbd (by rw [hw.1]; exact flatPt_single (get_single v _))
           rw [ht] at hl ⊢
           have := I.shift hl
           simpa [e1, e2] using this
         · rw [hag.1] at ht
           rw [flatPt_single hx, Option.some.injEq] at hp
           subst hp
-          have I := ih ρs ρ [(v, [q1, q2, q3])] bd [q1, q2, q3] hw.2 hρ (hag.2 _) hm hbd (by rw [hw.1]; exact flatPt_single (get_single v _))
+          have I := ih ρs ρ _ [(v, [q1, q2, q3])] bd [q1, q2, q3] hw.2 hρ (hag.2 _) hm hbd (by rw [hw.1]; exact flatPt_single (get_single v _))
           rw [ht] at hl ⊢
           have := I.shift hl
           simpa [e1, e2, e3] using this
       · simp at hb
     · simp at hb
   | rotate v d m c ih =>
-    intro ρs ρ pts box p hw hρ hag hm hb hp
+    intro ρs ρ σ pts box p hw hρ hag hm hb hp
     simp only [bbox] at hb
     split at hb
     · rename_i bd hbd
@@ -266,7 +267,7 @@ theorem bbox_encloses (D : Dom K) : ∀ (ρs : List (Env K)) (ρ pts : Env K) (b
       simp only [Dom.vars, hw.1] at hp
       rw [flatPt_single hx, Option.some.injEq] at hp
       subst hp
-      have I := ih ρs ρ [(v, [q1, q2])] bd [q1, q2] hw.2 hρ (hag.2.2 _) hm hbd (by rw [hw.1]; exact flatPt_single (get_single v _))
+      have I := ih ρs ρ _ [(v, [q1, q2])] bd [q1, q2] hw.2 hρ (hag.2.2 _) hm hbd (by rw [hw.1]; exact flatPt_single (get_single v _))
       unfold Inside at I
       cases I with
       | cons hq1 I' =>
@@ -290,10 +291,24 @@ theorem bbox_encloses (D : Dom K) : ∀ (ρs : List (Env K)) (ρ pts : Env K) (b
           · rw [e2]; exact affine_box_lo m10 m11 q1 q2 x0 x1 y0 y1 cx cy cy Y0 hq1 hq2 c00.2.2.1 c01.2.2.1 c10.2.2.1 c11.2.2.1
           · rw [e2]; exact affine_box_hi m10 m11 q1 q2 x0 x1 y0 y1 cx cy cy Y1 hq1 hq2 c00.2.2.2 c01.2.2.2 c10.2.2.2 c11.2.2.2
     · simp at hb
-  | bdry d _ => intro _ _ _ _ _ _ _ _ hm; exact absurd hm (by simp [mem])
-  | bdryL d _ => intro _ _ _ _ _ _ _ _ hm; exact absurd hm (by simp [mem])
-  | bdryR d _ => intro _ _ _ _ _ _ _ _ hm; exact absurd hm (by simp [mem])
+  | bdry d _ => intro _ _ _ _ _ _ _ _ _ hm; exact absurd hm (by simp [mem])
+  | bdryL d _ => intro _ _ _ _ _ _ _ _ _ hm; exact absurd hm (by simp [mem])
+  | bdryR d _ => intro _ _ _ _ _ _ _ _ _ hm; exact absurd hm (by simp [mem])
 
+
+/-- **Main theorem (enclosure).**  For every domain expression — any nesting of union / cut / intersection /
+    product / translation / rotation over interval, parallelogram, triangle, disc, ball —, every list of
+    supplied parameter rows `ρs`, every row `ρ` among them and every point `pts` of the set the expression
+    denotes at that row: each coordinate of the point (in space order) lies in the interval `[min, max]`
+    that `bounding_box` returns for its axis (for motion nodes: in the box returned for that row).
+    By structural induction: parallelogram / triangle by convexity (the point is a convex combination of the
+    corners), disc / ball from `(pᵢ − cᵢ)² ≤ r²`, union = hull, intersection = meet, cut = first operand,
+    product = concatenation, translation = shifted inner box, rotation = extreme coordinates of the images of
+    all four corners of the inner box (an affine map on a box is extremal at a corner). -/
+theorem bbox_encloses (D : Dom K) (ρs : List (Env K)) (ρ pts : Env K) (box : List (K × K)) (p : List K)
+    (hw : D.wfVars) (hρ : ρ ∈ ρs) (hag : Agree D pts ρ) (hm : mem D pts ρ) (hb : bbox D ρs ρ = some box)
+    (hp : flatPt D.vars pts = some p) : Inside box p :=
+  bbox_encloses_gen D ρs ρ ρ pts box p hw hρ hag hm hb hp
 
 /-! ### non-vacuity of `bbox_encloses` on the executable instance -/
 
@@ -314,7 +329,7 @@ example : bbox exMove [[("t", [0])], [("t", [1/2])], [("t", [1])]] [("t", [1/2])
 example : Inside [((-4/5 : Rat), 3/5), (0, 7/5)] [3/5, 4/5] := by
   refine bbox_encloses exRot [[]] [] [("x", [3/5, 4/5])] _ _ ?_ (by simp) ?_ ?_ (by decide +kernel) (by decide +kernel)
   · simp [exRot, Dom.wfVars, Dom.vars]
-  · simp [exRot, Agree, PFun.const]
+  · simp [exRot, Agree, AgreeG, PFun.const]
   · refine ⟨1, 0, 3/5, 4/5, 3/5, -4/5, 4/5, 3/5, 0, 0, rfl, rfl, rfl, by norm_num, by norm_num, ?_⟩
     exact ⟨1, 0, 0, 0, 1, 0, 0, 1, 1, 0, rfl, rfl, rfl, rfl, by norm_num, by norm_num, by norm_num, by norm_num, by norm_num, by norm_num⟩
 
@@ -486,7 +501,7 @@ theorem par_corner_mem (v : String) (o c1 c2 : PFun K) (ρ : Env K) (ox oy ax ay
     ∀ p ∈ [(ox, oy), (ax, ay), (bx, cy), (ax + bx - ox, ay + cy - oy)], mem (.par v o c1 c2) [(v, [p.1, p.2])] ρ := by
   intro p hp
   have A := hag [p.1, p.2]
-  simp only [Agree] at A
+  simp only [Agree, AgreeG] at A
   have key : ∀ s t : K, 0 ≤ s → s ≤ 1 → 0 ≤ t → t ≤ 1 → p.1 = ox + s * (ax - ox) + t * (bx - ox) →
       p.2 = oy + s * (ay - oy) + t * (cy - oy) → mem (.par v o c1 c2) [(v, [p.1, p.2])] ρ := by
     intro s t a b c d e1 e2
@@ -504,7 +519,7 @@ theorem tri_corner_mem (v : String) (o c1 c2 : PFun K) (ρ : Env K) (ox oy ax ay
     ∀ p ∈ [(ox, oy), (ax, ay), (bx, cy)], mem (.tri v o c1 c2) [(v, [p.1, p.2])] ρ := by
   intro p hp
   have A := hag [p.1, p.2]
-  simp only [Agree] at A
+  simp only [Agree, AgreeG] at A
   have key : ∀ s t : K, 0 ≤ s → 0 ≤ t → s + t ≤ 1 → p.1 = ox + s * (ax - ox) + t * (bx - ox) →
       p.2 = oy + s * (ay - oy) + t * (cy - oy) → mem (.tri v o c1 c2) [(v, [p.1, p.2])] ρ := by
     intro s t a b c e1 e2
@@ -538,7 +553,7 @@ theorem bbox_tight_prim (D : Dom K) (ρ : Env K) (box : List (K × K)) (hprim : 
       have hi : i = 0 := by simpa using h
       subst hi
       have A1 := hag' [l]; have A2 := hag' [u]
-      simp only [Agree] at A1 A2
+      simp only [Agree, AgreeG] at A1 A2
       refine ⟨⟨[(v, [l])], [l], ⟨l, l, u, get_single v _, by rw [A1.1, hl'], by rw [A1.2, hu'], le_rfl, hle⟩,
                 flatPt_single (get_single v _), rfl⟩,
               ⟨[(v, [u])], [u], ⟨u, l, u, get_single v _, by rw [A2.1, hl'], by rw [A2.2, hu'], hle, le_rfl⟩,
@@ -611,7 +626,7 @@ theorem bbox_tight_prim (D : Dom K) (ρ : Env K) (box : List (K × K)) (hprim : 
       have M : ∀ x y : K, (x - cx) ^ 2 + (y - cy) ^ 2 ≤ rr ^ 2 → mem (.circle v c r) [(v, [x, y])] ρ := by
         intro x y hd
         have A := hag' [x, y]
-        simp only [Agree] at A
+        simp only [Agree, AgreeG] at A
         exact ⟨x, y, cx, cy, rr, get_single v _, by rw [A.1, hc'], by rw [A.2, hr'], h0, hd⟩
       intro i h
       have hi : i = 0 ∨ i = 1 := by simp at h; omega
@@ -637,7 +652,7 @@ theorem bbox_tight_prim (D : Dom K) (ρ : Env K) (box : List (K × K)) (hprim : 
       have M : ∀ x y z : K, (x - cx) ^ 2 + (y - cy) ^ 2 + (z - cz) ^ 2 ≤ rr ^ 2 → mem (.sphere v c r) [(v, [x, y, z])] ρ := by
         intro x y z hd
         have A := hag' [x, y, z]
-        simp only [Agree] at A
+        simp only [Agree, AgreeG] at A
         exact ⟨x, y, z, cx, cy, cz, rr, get_single v _, by rw [A.1, hc'], by rw [A.2, hr'], h0, hd⟩
       intro i h
       have hi : i = 0 ∨ i = 1 ∨ i = 2 := by simp at h; omega
@@ -657,7 +672,7 @@ theorem bbox_tight_prim (D : Dom K) (ρ : Env K) (box : List (K × K)) (hprim : 
 example : Attains (.circle "x" (.const [1, 2]) (.const [3]) : Dom Rat) [] 0 (-2) :=
   (bbox_tight_prim (.circle "x" (.const [1, 2]) (.const [3])) [] [(-2, 4), (-1, 5)] trivial
     (by intro rr h; simp only [PFun.const, List.cons.injEq, and_true] at h; subst h; norm_num)
-    (by intro v q _; simp [Agree, PFun.const]) (by decide +kernel) 0 (by simp)).1
+    (by intro v q _; simp [Agree, AgreeG, PFun.const]) (by decide +kernel) 0 (by simp)).1
 
 /-! ### the whole call `bounding_box(params)`: one flat box, or one box per row -/
 
